@@ -31,8 +31,8 @@ MANIFEST = dict(
          "exactly vs. enum_blocks_preserved / enum_fortran_block: the same for the emitted FILE blocks (blank line, "
          "comment, 'enum NAME {', indented members with the last-comma rule, '};' / '!  enum [class] ...', "
          "'integer(C_INT), parameter :: name = value') read back by block parsers (C block needs a non-empty member list; "
-         "empty_enum_c_block_rejected is the witness why). value_text_preserved, int_literal_agrees: per expression. "
-         "py_value_is_enumerator / py_module_items: the Python wrapper writes one constant per member whose value "
+         "an enumeration without members writes no C block, empty_enum_writes_no_c_block). value_text_preserved, int_literal_agrees: per expression. "
+         "py_value_is_enumerator / py_module_items / py_class_items: the Python wrapper writes one constant per member whose value "
          "expression names that very C++ enumerator (scoped: static_cast<long>(scope::Enum::member)), so the value is the "
          "C++ compiler's by construction; nothing is recomputed. No _partial statements. Lua emits no enumerators.",
     design="3 C11",
@@ -67,7 +67,8 @@ THEOREMS = {
         "Shroud.Enum.enum_fortran_block",
         "Shroud.Enum.py_value_is_enumerator",
         "Shroud.Enum.py_module_items",
-        "Shroud.Enum.empty_enum_c_block_rejected",
+        "Shroud.Enum.py_class_items",
+        "Shroud.Enum.empty_enum_writes_no_c_block",
         "Shroud.Enum.old_text_1mm1_rejected",
         "Shroud.Enum.old_text_octal_misread",
         "Shroud.Enum.exEnum_ok",
@@ -1198,23 +1199,64 @@ def boundary_oracle(ctx, d):
 
 
 def empty_enum_observation(ctx, d):
-    """Boundary observation: an enumeration without members (legal C++) has no enumerator to compare; record what
-    the C emitter writes for it and whether gcc takes it."""
-    from shroud import wrapc
-    try:
-        _parent, node = build_real("lib", "enum E {}")
-        wc = object.__new__(wrapc.Wrapc)
-        wc.enum_impl = []
-        wc.wrap_enum(None, node)
-        block = render_real(wc, list(wc.enum_impl), 0, node.options.C_line_length, "")
-    except (Exception, SystemExit) as ex:  # noqa  (util.wformat stops with SystemExit)
-        ctx.note("empty_enum", "diagnostic: %s: %s" % (type(ex).__name__, ex))
-        return
+    """Enumerations without members (legal C++; no enumerator to compare).  Tie: what the three real emitters
+    write for `enum E {}` / `enum class E {}` at the three scopes vs the model's blocks (the C header declares
+    nothing, fix 7351f39).  Oracle: the real C block must be acceptable to gcc."""
+    from shroud import wrapc, wrapf, wrapp
+    e = common.enc
+    drv = common.Driver("drv_enum")
+    reqs, reals = [], []
+    for scope in SCOPES:
+        for decl in ("enum E {}", "enum class E {}"):
+            try:
+                parent, node = build_real(scope, decl)
+                wc = object.__new__(wrapc.Wrapc)
+                wc.enum_impl = []
+                wc.wrap_enum(None, node)
+                cblock = render_real(wc, list(wc.enum_impl), 0, node.options.C_line_length, "")
+                wf = object.__new__(wrapf.Wrapf)
+                fi = types.SimpleNamespace(enum_impl=[], module_use={})
+                wf.wrap_enum(None, node, fi)
+                fblock = render_real(wf, list(fi.enum_impl), 1, node.options.F_line_length, " &")
+                wp = object.__new__(wrapp.Wrapp)
+                wp.enum_impl = []
+                wp.wrap_enum(node)
+                pyitems = list(wp.enum_impl)
+            except (Exception, SystemExit) as ex:  # noqa  (util.wformat stops with SystemExit)
+                ctx.note("empty_enum", "diagnostic: %s: %s" % (type(ex).__name__, ex))
+                ctx.tie_broken("empty-enum-emitters", "%s | %s: %s: %s" % (scope, decl, type(ex).__name__, ex))
+                return
+            pf = parent.fmtdict
+            in_class = parent.nodename == "class"
+            nss = pf.namespace_scope + (pf.cxx_class + "::" if pf.get("cxx_class") else "")
+            reqs.append(" ".join(["block", e(pf.C_prefix + pf.C_name_scope), e(pf.F_name_scope), e("E"),
+                                  e(node.ast.scope or ""), e(nss), "1" if in_class else "0",
+                                  e(pf.PY_PyTypeObject if in_class else "")]))
+            reals.append((scope, decl, cblock, fblock, pyitems))
+    bad = []
+    if drv.available():
+        for (scope, decl, cblock, fblock, pyitems), ans in zip(reals, drv.run(reqs)):
+            p = ans.split(" ")
+            ctx.count(1)
+            if p[0] != "ok" or len(p) < 6:
+                bad.append({"scope": scope, "decl": decl, "model": ans[:200]})
+                continue
+            model = (common.decs(p[1]), common.decs(p[2]), common.decs(p[3]))
+            if model != (cblock, fblock, pyitems) or p[5] != "~":
+                bad.append({"scope": scope, "decl": decl, "impl": [cblock, fblock, pyitems], "model": list(model),
+                            "evalBlockF": p[5]})
+    else:
+        bad.append("driver not built")
+    if bad:
+        ctx.tie_broken("empty-enum-blocks", bad[:4])
+    # implementation-only: gcc on the real C block of `enum E {}` at library scope
+    block = reals[0][2]
     sub = tempfile.mkdtemp(prefix="ee", dir=d)
     open(os.path.join(sub, "e.c"), "w").write("\n".join(block) + "\nint main(void) { return 0; }\n")
     rc, out = _sh(["gcc", "-std=c99", "-w", "e.c", "-o", "prog"], sub)
     ctx.count(1)
-    ctx.note("empty_enum", {"c_block": block, "gcc": "accepted" if rc == 0 else " ".join(out.split())[:200]})
+    ctx.note("empty_enum", {"c_block": block, "f_block": reals[0][3], "gcc": "accepted" if rc == 0 else " ".join(out.split())[:200],
+                            "tie_cases": len(reals), "tie_disagreements": len(bad)})
     if rc != 0:
         ctx.fail("empty-enum:c-block", "enum E {} (legal C++) is written to the C header as %s, which gcc -std=c99 rejects: %s"
                  % (block, " ".join(out.split())[:200]), {"scope": "lib", "decl": "enum E {}"})
